@@ -10,6 +10,7 @@ package main
 
 import (
 	"fmt"
+	"log/slog"
 	"strconv"
 	"strings"
 
@@ -43,7 +44,7 @@ func wvCond(c int) func(v int) bool {
 }
 
 type xSub struct {
-	kind  string // once | wv | ctx
+	kind  string // once | wv | ctx | log
 	unsub func()
 	dead  bool
 	// once
@@ -57,6 +58,75 @@ type xSub struct {
 	callNo int
 	open   []string
 	last   int // new value of the last call
+	// log
+	logger *fakeLogReceiver
+}
+
+// fakeLogReceiver is the VariableLogReceiver handed to LogUpdates: one log level that the harness activates and
+// deactivates.  Contract (variable.go): the setup runs when the level becomes active, the shutdown function it
+// returned when the level is deactivated (or the subscription to the level is cancelled).
+type fakeLogReceiver struct {
+	w        *xWorld
+	i        int
+	active   bool
+	setup    func() func()
+	shutdown func()
+	gone     bool
+	logged   int  // value of the last message since the level was activated
+	any      bool // ... if there was one
+}
+
+func (l *fakeLogReceiver) OnLogLevelActive(_ slog.Level, setup func() (shutdown func())) (unsubscribe func()) {
+	l.setup = setup
+	if l.active {
+		l.shutdown = setup()
+	}
+
+	return func() {
+		l.gone = true
+		if l.shutdown != nil {
+			l.shutdown()
+			l.shutdown = nil
+		}
+	}
+}
+
+func (l *fakeLogReceiver) LogAttrs(msg string, _ slog.Level, args ...slog.Attr) {
+	if l.gone || !l.active {
+		l.w.violate("after-unsubscribe", fmt.Sprintf("LogUpdates %d logged %v although its level is inactive or it was unsubscribed", l.i, args))
+	}
+	val := ""
+	if len(args) == 1 && args[0].Key == "set" {
+		val = args[0].Value.String()
+	}
+	if n, err := strconv.Atoi(strings.TrimPrefix(val, "s")); err == nil {
+		l.logged, l.any = n, true
+	}
+	l.w.toks = append(l.w.toks, fmt.Sprintf("l%d=%s", l.i, val))
+}
+
+func (l *fakeLogReceiver) setLevel(active bool) {
+	if l.gone || active == l.active {
+		return
+	}
+	l.active = active
+	if active {
+		l.any = false
+		l.shutdown = l.setup()
+	} else if l.shutdown != nil {
+		l.shutdown()
+		l.shutdown = nil
+	}
+}
+
+func (w *xWorld) addLog(active, stringer bool) {
+	s := &xSub{kind: "log", logger: &fakeLogReceiver{w: w, i: len(w.subs), active: active}}
+	w.subs = append(w.subs, s)
+	if stringer {
+		s.unsub = w.v.LogUpdates(s.logger, slog.LevelInfo, "v", func(v int) string { return "s" + strconv.Itoa(v) })
+	} else {
+		s.unsub = w.v.LogUpdates(s.logger, slog.LevelInfo, "v")
+	}
 }
 
 type xWorld struct {
@@ -263,6 +333,13 @@ func (w *xWorld) oracle(r *hx.Run, op string, before, after int) {
 					s.active = nil
 				}
 			}
+		case "log":
+			// while the level is active the last message is the current value (none yet only while the value is zero)
+			if l := s.logger; !s.dead && l.active && (l.any && l.logged != after || !l.any && after != 0) {
+				r.Fail("last-is-final", fmt.Sprintf("after %q: LogUpdates %d: last logged value %d (any: %v), Get() = %d", op, i, l.logged, l.any, after),
+					map[string]string{"oracle": "last-is-final", "op": opk, "mode": "seqx"})
+				l.logged, l.any = after, true
+			}
 		case "ctx":
 			if s.dead && len(s.open) != 0 {
 				r.Fail("context-torn-down", fmt.Sprintf("after %q: OnUpdateWithContext %d: %v still open after unsubscribe returned", op, i, s.open),
@@ -367,7 +444,11 @@ func (w *xWorld) exec1(f []string, num func(int) int) string {
 		if w.dv == nil {
 			return "bad-op"
 		}
-		w.undo()
+		if w.detached {
+			w.dv.Unsubscribe() // a further call, directly on the DerivedVariable: sync.Once, nothing happens
+		} else {
+			w.undo()
+		}
 		w.detached = true
 
 		return "ok"
@@ -392,6 +473,20 @@ func (w *xWorld) exec1(f []string, num func(int) int) string {
 		w.addCtx(num(1) == 1)
 
 		return "ok"
+	case "log":
+		w.addLog(num(1) == 1, num(2) == 1)
+
+		return "ok"
+	case "level":
+		i := num(1)
+		if len(f) < 3 || i < 0 || i >= len(w.subs) || w.subs[i].kind != "log" {
+			return "bad-op"
+		}
+		if !w.subs[i].dead {
+			w.subs[i].logger.setLevel(num(2) == 1)
+		}
+
+		return "ok"
 	case "unsub":
 		i := num(1)
 		if len(f) < 2 || i < 0 || i >= len(w.subs) {
@@ -410,6 +505,8 @@ func (w *xWorld) exec1(f []string, num func(int) int) string {
 				w.toks = append(w.toks, "x")
 			case s.kind == "once":
 				w.toks = append(w.toks, "o"+strconv.Itoa(bi(len(s.calls) > 0)))
+			case s.kind == "log":
+				w.toks = append(w.toks, "l"+strconv.Itoa(bi(s.logger.active)))
 			case s.kind == "wv":
 				if s.active == nil {
 					w.toks = append(w.toks, "w-")
@@ -430,6 +527,7 @@ func (w *xWorld) exec1(f []string, num func(int) int) string {
 func genSeqxCase(rng *hx.Rng, n int) []string {
 	ops := []string{"newvarx"}
 	nsubs, toggles, derived := 0, 0, 0
+	var logs []int
 	for i := 0; i < n; i++ {
 		switch x := rng.Intn(100); {
 		case x < 22:
@@ -472,10 +570,18 @@ func genSeqxCase(rng *hx.Rng, n int) []string {
 		case x < 79:
 			nsubs++
 			ops = append(ops, "nonempty")
-		case x < 86:
+		case x < 84:
 			nsubs++
 			ops = append(ops, fmt.Sprintf("ctx %d", rng.Intn(2)))
-		case x < 93:
+		case x < 89:
+			if len(logs) < 2 || rng.Chance(1, 3) {
+				logs = append(logs, nsubs)
+				nsubs++
+				ops = append(ops, fmt.Sprintf("log %d %d", rng.Intn(2), rng.Intn(2)))
+			} else {
+				ops = append(ops, fmt.Sprintf("level %d %d", logs[rng.Intn(len(logs))], rng.Intn(2)))
+			}
+		case x < 94:
 			if nsubs > 0 {
 				ops = append(ops, fmt.Sprintf("unsub %d", rng.Intn(nsubs)))
 			}
